@@ -359,7 +359,7 @@ def run(ctx):
     q = ctx.quick
     ctx.specdir()
     ov = _overlay(ctx)
-    pool = ThreadPoolExecutor(max_workers=6)
+    pool = ThreadPoolExecutor(max_workers=6 if q else 9)
     # 1. design level (at most ~8 TLC workers busy at any time)
     def models():
         rs = [ctx.tlc("DrkeyCacheMC", "DrkeyCache_exh.cfg", workers=2, timeout=300),
@@ -372,13 +372,13 @@ def run(ctx):
             if r["violated"] != inv:
                 raise vlib.Inconclusive("%s: expected the counterexample to %s, got %s" % (cfg, inv, r["violated"]))
         if not q:
-            rs += [ctx.tlc("PathRefreshMC", "PathRefresh_fixed.cfg", workers=2, timeout=600),
-                   ctx.tlc("PathRefreshMC", "PathRefresh_deep.cfg", workers=2, timeout=840),
-                   ctx.tlc("PathRefreshMC", "PathRefresh_dup.cfg", workers=2, timeout=840)]
+            rs += [ctx.tlc("PathRefreshMC", "PathRefresh_fixed.cfg", workers=2, timeout=600)]
         return rs
     model = [pool.submit(models)]
     if not q:
-        model.append(pool.submit(lambda: [ctx.tlc("DrkeyCacheMC", "DrkeyCache_deep.cfg", workers=3, timeout=840, heap="6g")]))
+        model += [pool.submit(lambda: [ctx.tlc("DrkeyCacheMC", "DrkeyCache_deep.cfg", workers=2, timeout=840, heap="6g")]),
+                  pool.submit(lambda: [ctx.tlc("PathRefreshMC", "PathRefresh_deep.cfg", workers=2, timeout=840)]),
+                  pool.submit(lambda: [ctx.tlc("PathRefreshMC", "PathRefresh_dup.cfg", workers=1, timeout=840)])]
     try:
         n = _pipeline(ctx, pool, ov)
         for f in model:
